@@ -224,7 +224,38 @@ def edge_set_rule(ctx: Ctx, rid: str, only=None):
         raise AnchorMissing(f"edge-set rule: none of {sorted(only)} reads dependencies any more")
 
 
+def inherited_edges_keep_identity_rule(ctx: Ctx, rid: str):
+    """A child inherits its container's dependency list as a copy (deep_clone).  The copy may duplicate the containers -- the list,
+    the dict of a dependency with options -- but never the task an edge points to: a cloned predecessor is a task nobody schedules,
+    and the heir waits for it for ever.  In deep_clone every copy.deepcopy(x) is reached only under the facts that x is neither a
+    list nor a dict (containers are rebuilt element by element) and tree nodes are returned as they are."""
+    fn = ctx.repo.func("deep_clone", rel="scriptplan/core/property.py")
+    from .common import facts_of
+    g = cfg_of(fn)
+    facts = facts_of(fn)
+    p0 = fn.params[0]
+    calls = [c for c in own_nodes(fn) if isinstance(c, ast.Call) and norm(c.func) in ("copy.deepcopy", "deepcopy")]
+    if not calls:
+        raise AnchorMissing("deep_clone: no deepcopy call (the copying scheme changed; rule needs re-reading)")
+    keeps = any(isinstance(r, ast.Return) and isinstance(r.value, ast.Name) and r.value.id == p0 and any(
+        "propertySet" in norm(i.test) or "PropertyTreeNode" in norm(i.test) for (i, b) in __import__("spverif.rules.common", fromlist=["enclosing_ifs"]).enclosing_ifs(r, fn.node))
+        for r in own_nodes(fn))
+    for c in calls:
+        node = g.node_containing(c)
+        units = {tuple(cl)[0] for cl in facts.at(node) if len(cl) == 1} if node is not None else set()
+        arg = norm(c.args[0]) if c.args else "?"
+        no_list = (f"isinstance({arg}, list)", False) in units
+        no_dict = (f"isinstance({arg}, dict)", False) in units
+        ok = no_list and no_dict and keeps
+        ctx.ob(rid, f"deep_clone: {norm(c)} reached with list excluded={no_list}, dict excluded={no_dict}; tree nodes returned as they are={keeps}", (fn, c), ok,
+               "only leaves of the value are deep-copied; tasks inside lists and dicts keep their identity" if ok else
+               "a list or dict can be handed to copy.deepcopy whole: the task inside the dict of an inherited `depends x { gaplength 2h }` is "
+               "cloned with it, the heir depends on a task that is never scheduled and is reported as deadlocked",
+               key=key_of(rid, fn, None, f"deepcopy of containers {arg}"))
+
+
 def run_extra(ctx: Ctx):
+    inherited_edges_keep_identity_rule(ctx, "R04.15")
     # ---------------------------------------------------------------- R04.14 a dependant on a container reads the dates written by the
     # roll-up that runs while leaves are placed: latest child end / earliest child start (= C10 R10.2 for that roll-up)
     from .c10 import rollup_accumulator_rule
